@@ -101,6 +101,16 @@ CHECKS = {
             "learned closer peers, exactly-once partial results/providers, no request after the quorum is met.",
             "Timeout family uses real sleeps with one-sided (sound) freshness margins.",
             "DESIGN.md §3 C15"),
+    "C07": ("fault_enumeration",
+            "offline checker over stamped event logs of real Litep2p nodes on loopback (application stream, every user protocol's TransportEvent stream, redial results) with a fault proxy providing the ground truth of connection termination",
+            "Two real nodes with two recording user protocols, a notification and a request-response protocol each; scenarios enumerate termination causes (remote close, proxy reset, "
+            "FIN/reset/corruption at a byte offset, local force-close, idle expiry) x local protocol shutdown kinds (run() returns Ok/Err, notification handle dropped, request-response "
+            "handle dropped) x moment (before/while connected) x remote poke (dead/live protocol) x 1-3 connect cycles under executor chaos. Oracle: after the ground-truth end the "
+            "application and every running protocol that saw the connection are told closed exactly once within a bounded window, never before established; dial(peer) afterwards is not "
+            "AlreadyConnected and yields an outcome; after a protocol shutdown new connections are still established for the application and the surviving protocols, a surviving "
+            "protocol can open a substream on the existing connection (or is told it closed), and a request-response round trip works on the re-established connection.",
+            "'Protocols before the manager' is not observable at the public boundary (different consumer tasks) and is not decided here; overlapping double connections are covered by C08's model.",
+            "DESIGN.md §3 C07"),
     "C16": ("fault_enumeration",
             "operation ledger over real Litep2p nodes on loopback: every Kademlia operation gets exactly one terminal event within a bounded window under enumerated peer placements and injected faults",
             "Real nodes with Kademlia on loopback TCP; the routing table of the node under test holds peers that are healthy, have only undialable addresses, refuse the port, "
